@@ -128,6 +128,30 @@ CHECKS = {
             "The documented type table is a reference function in the engine; forms the documentation does not settle "
             "are judged only on exception class and purity. SimFS stands in for the disk.",
             "DESIGN.md 5/C20"),
+    "C17": ("iosim_csv", "exploration",
+            "deterministic simulation of a storage history: write through the real CSV writer to a simulated disk, an "
+            "environment actor corrupts a cell / header / inserts blank lines at a position it chose, then the real "
+            "reader reads column by column; in-memory table model with bit-exact comparison and the physical line of "
+            "the injected corruption",
+            "Seeded exploration of write -> (corrupt) -> read histories. Written bytes must have the header in listed "
+            "order and one record per cell; every intact column must read back bit-identical with the requested "
+            "element type and exactly the cells equal to the missing value masked, unaffected by garbage elsewhere; a "
+            "corrupted cell must be reported as invalid data naming the column and the physical file line; a removed "
+            "header must be reported by name. The in-family part is the history and error location; which doubles and "
+            "header names are tried is sampled.",
+            "SimFS is the disk; producers are injected finished commands; programs are built through the API.",
+            "DESIGN.md 5/C17"),
+    "C18": ("iosim_netcdf", "exploration",
+            "deterministic (seeded, replayable) write -> read histories through the real netCDF4/HDF5 library on real "
+            "scratch files over the configuration matrix of optional read parameters; in-memory dataset model. No "
+            "schedule and only whole-file conditions exist here: the in-family part is thin and stated as such",
+            "Seeded exploration of template shapes/coordinates x sets of results written together (mask kinds, write "
+            "order) x read parameter combinations. Shape, element kind, values, missing = union of written masks, "
+            "template dimension variables/attributes byte-equal, float by default, missing value, positive and fuzzy "
+            "checks, missing variable reported.",
+            "Real file system (per-run scratch directory), not simulated. Implemented parameter name MissingValue is "
+            "used (documentation says MissingVal).",
+            "DESIGN.md 5/C18"),
 }
 
 PENDING = {}
